@@ -385,12 +385,7 @@ func expandArrayArgument(v interface{}) ([]interface{}, error) {
 }
 
 func hasVariadicParameter(funType reflect.Type) bool {
-	numArgs := funType.NumIn()
-	if numArgs == 0 {
-		return false
-	}
-	last := funType.In(numArgs - 1)
-	return last != nil && last.Kind() == reflect.Slice
+	return funType.IsVariadic()
 }
 
 func convTypeToTarget(source interface{}, target reflect.Type) (interface{}, error) {
